@@ -389,3 +389,41 @@ def service_instances() -> list:
             continue
     _SERVICES_CACHE = out
     return out
+
+
+_GROUP_TPCI_OCTETS = (0x00, 0x00, 0x04)
+_IND_TPCI_OCTETS = (0x00, 0x40, 0x54, 0x7C, 0x80, 0x81, 0xC2, 0xD6, 0xC3, 0xFF)
+
+
+def plausible_ldata_frames(valid_apdus: list[bytes]):
+    """L_Data frames that mostly parse: consistent lengths, EFF 0, reserved bit clear, TPCI valid for
+    the address type, APDU = a valid APDU of the given list with zero or one flipped bit (reserved /
+    data bits), or a raw APDU. For the received-frame half of C13."""
+    apdu_s = st.one_of(
+        st.sampled_from(valid_apdus),
+        st.tuples(st.sampled_from(valid_apdus), st.integers(0, 8 * 24 - 1)).map(
+            lambda t: bytes([t[0][0] & 3]) + bytes(b ^ ((0x80 >> (t[1] % 8)) if i + 1 == 1 + (t[1] // 8) % max(1, len(t[0]) - 1) else 0) for i, b in enumerate(t[0][1:]))
+        ),
+        _RAW_APDU,
+    )
+
+    @st.composite
+    def build(draw):
+        code = L_DATA_CODES[draw(st.integers(0, 2))]
+        add = draw(_ADDINFO)
+        c1 = draw(_CTRL1) & 0xBF
+        c2 = draw(_CTRL2) & 0xF0
+        src = draw(u16)
+        dst = draw(_DST)
+        octs = _GROUP_TPCI_OCTETS if c2 & 0x80 else _IND_TPCI_OCTETS
+        t = octs[draw(st.integers(0, len(octs) - 1))]
+        if t & 0x80:
+            tpdu = bytes([t])
+        else:
+            apdu = draw(apdu_s)
+            tpdu = bytes([t | (apdu[0] & 3)]) + apdu[1:]
+        if len(tpdu) > 255:
+            tpdu = tpdu[:255]
+        return bytes([code, len(add)]) + add + bytes([c1, c2]) + src.to_bytes(2, "big") + dst.to_bytes(2, "big") + bytes([len(tpdu) - 1]) + tpdu
+
+    return build()
